@@ -72,6 +72,8 @@ type round struct {
 	f        *fox.Router
 	K        int // data routes written together with /ver
 	nA, nB   int // multi-route writers, single-op writers
+	nD       int // 0 or 1 truncate writer (owns the TRACE and PURGE method roots)
+	opsD     int
 	nC       int // family writers: Update(parent) then writes below it, in one cached transaction
 	opsC     int
 	nR       int
@@ -100,6 +102,15 @@ const (
 	// version tags of transactions that will be ABORTED: must never be observed by anybody
 	poison = uint64(1) << 40
 )
+
+// truncate families: routes /t/0../t/2 under the common verb TRACE (objects 900+j) and under the custom verb
+// PURGE (objects 1000+j); only the truncate writer touches these two method roots
+const truncN = 3
+
+var truncMethods = [2]string{"TRACE", "PURGE"}
+
+func tpath(j int) string   { return "/t/" + strconv.Itoa(j) }
+func tobj(mi, j int) int    { return 900 + 100*mi + j }
 
 var famSuffix = [famSize]string{"", "/a", "/b", "/a/deep"}
 
@@ -154,6 +165,13 @@ func (r *round) setup() {
 	}
 	for _, p := range paramRoutes {
 		must(f.Handle("GET", p, echoParams))
+	}
+	if r.nD > 0 {
+		for _, m := range truncMethods {
+			for j := 0; j < truncN; j++ {
+				must(f.Handle(m, tpath(j), handler(0), ann(0)))
+			}
+		}
 	}
 }
 
@@ -413,22 +431,114 @@ func (r *round) writerC(tid, i int, rnd *hx.Rand, out *[]rec) {
 	}
 }
 
+// truncate writer: every transaction's FIRST mutation is Truncate(methods...) on method roots nobody else writes
+// (common verb TRACE, custom verb PURGE, one or both, in both orders), followed by the re-registration of every
+// route of the truncated methods; ended by Commit, or by Abort / error (then with poisoned tags, or with no
+// re-registration at all). In every published state all routes exist: readers must never miss one.
+func (r *round) writerD(tid int, rnd *hx.Rand, out *[]rec) {
+	var ver [2]uint64
+	for n := 0; n < r.opsD; n++ {
+		commit := rnd.Pct(55)
+		var which []int
+		switch rnd.Intn(4) {
+		case 0:
+			which = []int{0}
+		case 1:
+			which = []int{1}
+		case 2:
+			which = []int{0, 1}
+		default:
+			which = []int{1, 0}
+		}
+		reRegister := commit || rnd.Bool()
+		body := func(txn *fox.Txn) bool {
+			ms := make([]string, len(which))
+			for i, mi := range which {
+				ms[i] = truncMethods[mi]
+			}
+			ok := txn.Truncate(ms...) == nil
+			if !reRegister {
+				return ok
+			}
+			for _, mi := range which {
+				tag := ver[mi] + 1
+				if !commit {
+					tag = poison + uint64(tid)<<20 + uint64(n)
+				}
+				for j := 0; j < truncN; j++ {
+					_, err := txn.Handle(truncMethods[mi], tpath(j), handler(tag), ann(tag))
+					ok = ok && err == nil
+				}
+			}
+			return ok
+		}
+		e := rec{tid: tid, kind: 'A'}
+		ok := false
+		e.call = clock.Add(1)
+		switch {
+		case commit && rnd.Bool():
+			e.what = "truncate Txn/Commit"
+			txn := r.f.Txn(true)
+			ok = body(txn)
+			txn.Commit()
+		case commit:
+			e.what = "truncate Updates/commit"
+			if err := r.f.Updates(func(txn *fox.Txn) error { ok = body(txn); return nil }); err != nil {
+				ok = false
+			}
+		case rnd.Bool():
+			e.what = "truncate Txn/Abort"
+			txn := r.f.Txn(true)
+			body(txn)
+			if rnd.Pct(30) {
+				time.Sleep(time.Duration(rnd.Intn(200)) * time.Microsecond) // keep the uncommitted truncate open a little
+			}
+			txn.Abort()
+		default:
+			e.what = "truncate Updates/error"
+			if err := r.f.Updates(func(txn *fox.Txn) error { body(txn); return errAbort }); !errors.Is(err, errAbort) {
+				r.fail("Updates did not return fn's error: %v", err)
+			}
+		}
+		e.ret = clock.Add(1)
+		if commit {
+			e.kind = 'W'
+			e.ok = ok
+			for _, mi := range which {
+				ver[mi]++
+				for j := 0; j < truncN; j++ {
+					e.vs = append(e.vs, ov{tobj(mi, j), ver[mi]})
+				}
+			}
+		}
+		*out = append(*out, e)
+	}
+}
+
 type target struct {
 	method, pattern, path string
 	obj                   int
+	always                bool // registered in every published state: a reader must never miss it
 }
 
 func (r *round) targets() []target {
-	ts := []target{{"GET", "/ver", "/ver", 0}}
+	ts := []target{{"GET", "/ver", "/ver", 0, true}}
 	for j := 1; j <= r.K; j++ {
-		ts = append(ts, target{"GET", dpath(j), dpath(j), j})
+		ts = append(ts, target{"GET", dpath(j), dpath(j), j, true})
 	}
 	for i := 0; i < r.nB; i++ {
-		ts = append(ts, target{"POST", spat(i), sreq(i), objS + i}, target{"GET", cpat(i), cpat(i), objC + i})
+		ts = append(ts, target{"POST", spat(i), sreq(i), objS + i, true}, target{"GET", cpat(i), cpat(i), objC + i, false})
 	}
 	for i := 0; i < r.nC; i++ {
 		for j := 0; j < famSize; j++ {
-			ts = append(ts, target{"GET", fpath(i, j), fpath(i, j), fobj(i, j)})
+			ts = append(ts, target{"GET", fpath(i, j), fpath(i, j), fobj(i, j), true})
+		}
+	}
+	if r.nD > 0 {
+		for mi, m := range truncMethods {
+			for j := 0; j < truncN; j++ { // listed twice: these are the routes a misplaced truncate hides
+				ts = append(ts, target{m, tpath(j), tpath(j), tobj(mi, j), true}, target{m, tpath(j), tpath(j), tobj(mi, j), true})
+			}
 		}
 	}
 	return ts
@@ -437,7 +547,7 @@ func (r *round) targets() []target {
 // everything one loaded tree shows
 func (r *round) snapshotOf(all func(func(string, *fox.Route) bool)) []ov {
 	var vs []ov
-	nx, nf := 0, 0
+	nx, nf, nt := 0, 0, 0
 	all(func(m string, rte *fox.Route) bool {
 		v, _ := verOf(rte)
 		p := rte.Pattern()
@@ -459,6 +569,14 @@ func (r *round) snapshotOf(all func(func(string, *fox.Route) bool)) []ov {
 		case strings.HasPrefix(p, "/c/"):
 			i, _ := strconv.Atoi(p[3:strings.LastIndex(p, "/")])
 			vs = append(vs, ov{objC + i, v})
+		case strings.HasPrefix(p, "/t/"):
+			j, _ := strconv.Atoi(p[3:])
+			for mi := range truncMethods {
+				if truncMethods[mi] == m {
+					nt++
+					vs = append(vs, ov{tobj(mi, j), v})
+				}
+			}
 		case strings.HasPrefix(p, "/p/"):
 			rest := p[3:]
 			suffix := ""
@@ -480,6 +598,9 @@ func (r *round) snapshotOf(all func(func(string, *fox.Route) bool)) []ov {
 	})
 	if nx != 1 {
 		r.fail("snapshot shows %d /x routes (a partially applied transaction)", nx)
+	}
+	if nt != 2*truncN*r.nD {
+		r.fail("snapshot shows %d TRACE/PURGE routes instead of %d (an uncommitted, aborted or partial Truncate is visible)", nt, 2*truncN*r.nD)
 	}
 	if nf != famSize*r.nC {
 		r.fail("snapshot shows %d family routes instead of %d (a partially applied transaction)", nf, famSize*r.nC)
@@ -576,7 +697,7 @@ func (r *round) reader(tid int, rnd *hx.Rand, out *[]rec, stop *atomic.Bool) {
 			e.what = "Iter"
 			it := r.f.Iter()
 			e.vs = r.snapshotOf(it.All())
-			if l := r.f.Len(); l < r.K+2+r.nB+famSize*r.nC+len(paramRoutes) {
+			if l := r.f.Len(); l < r.K+2+r.nB+famSize*r.nC+len(paramRoutes)+2*truncN*r.nD {
 				r.fail("Len() = %d", l)
 			}
 		default:
@@ -600,6 +721,9 @@ func (r *round) reader(tid int, rnd *hx.Rand, out *[]rec, stop *atomic.Bool) {
 				return nil
 			})
 		}
+		if kind < 72 && t.always && len(e.vs) == 0 {
+			r.fail("%s by goroutine %d: %s %s not found, although it is registered in every published state (an uncommitted or aborted write is visible)", e.what, tid, t.method, t.path)
+		}
 		if record {
 			e.ret = clock.Add(1)
 			*out = append(*out, e)
@@ -617,7 +741,7 @@ func (r *round) run(rnd *hx.Rand) (events []event, dur time.Duration) {
 	r.setup()
 	old := runtime.GOMAXPROCS(r.procs)
 	defer runtime.GOMAXPROCS(old)
-	nth := r.nA + r.nB + r.nC + r.nR
+	nth := r.nA + r.nB + r.nC + r.nD + r.nR
 	recs := make([][]rec, nth)
 	rnds := make([]*hx.Rand, nth)
 	for i := range rnds {
@@ -651,8 +775,12 @@ func (r *round) run(rnd *hx.Rand) (events []event, dur time.Duration) {
 		tid, k := r.nA+r.nB+i, i
 		guard(tid, &wgW, func() { r.writerC(tid, k, rnds[tid], &recs[tid]) })
 	}
+	if r.nD > 0 {
+		tid := r.nA + r.nB + r.nC
+		guard(tid, &wgW, func() { r.writerD(tid, rnds[tid], &recs[tid]) })
+	}
 	for i := 0; i < r.nR; i++ {
-		tid := r.nA + r.nB + r.nC + i
+		tid := r.nA + r.nB + r.nC + r.nD + i
 		guard(tid, &wgR, func() { r.reader(tid, rnds[tid], &recs[tid], &stop) })
 	}
 	t0 := time.Now()
@@ -787,7 +915,7 @@ func main() {
 	nontrivial := 0
 	totalOps, totalOverlap, totalRun := 0, 0, 0
 	rounds, emitted := 0, 0
-	eventBudget := hx.Atoi(args["events"], 60000)
+	eventBudget := hx.Atoi(args["events"], 40000)
 	if tier == "thorough" && args["events"] == "" {
 		eventBudget = 900000
 	}
@@ -798,6 +926,8 @@ func main() {
 		r.K = rr.Range(1, 5)
 		r.nA = rr.Range(1, 4)
 		r.nB = rr.Range(0, 4)
+		r.nD = rr.Intn(2)
+		r.opsD = rr.Range(10, 40)
 		r.nC = rr.Range(0, 3)
 		r.opsC = rr.Range(10, 50)
 		r.nR = rr.Range(2, 8)
@@ -806,7 +936,7 @@ func main() {
 		r.opsB = rr.Range(20, 120)
 		r.opsR = rr.Range(200, 1500)
 		if tier == "thorough" {
-			r.opsA, r.opsB, r.opsC, r.opsR = r.opsA*2, r.opsB*2, r.opsC*2, r.opsR*4
+			r.opsA, r.opsB, r.opsC, r.opsD, r.opsR = r.opsA*2, r.opsB*2, r.opsC*2, r.opsD*2, r.opsR*4
 		}
 		if k%7 == 6 { // reader-heavy / writer-heavy extremes
 			r.nR, r.nA = 12, 1
@@ -847,10 +977,10 @@ func main() {
 		overlap = len(hit)
 		totalOverlap += overlap
 		totalOps += len(events) / 2
-		totalRun += r.nA*r.opsA + r.nB*r.opsB + r.nC*r.opsC + r.nR*r.opsR
-		nontriv := r.nA+r.nB+r.nC >= 2 && overlap > 0
-		cfg := fmt.Sprintf("round %d seed=%d K=%d writersA=%d writersB=%d writersC=%d readers=%d GOMAXPROCS=%d ops=%d reads-overlapping-a-commit=%d dur=%s",
-			k, r.seed, r.K, r.nA, r.nB, r.nC, r.nR, r.procs, len(events)/2, overlap, dur.Round(time.Millisecond))
+		totalRun += r.nA*r.opsA + r.nB*r.opsB + r.nC*r.opsC + r.nD*r.opsD + r.nR*r.opsR
+		nontriv := r.nA+r.nB+r.nC+r.nD >= 2 && overlap > 0
+		cfg := fmt.Sprintf("round %d seed=%d K=%d writersA=%d writersB=%d writersC=%d truncateWriter=%d readers=%d GOMAXPROCS=%d ops=%d reads-overlapping-a-commit=%d dur=%s",
+			k, r.seed, r.K, r.nA, r.nB, r.nC, r.nD, r.nR, r.procs, len(events)/2, overlap, dur.Round(time.Millisecond))
 		human := cfg
 		if msg, _ := r.badMsg.Load().(string); msg != "" {
 			human += " FAILURE: " + msg
@@ -876,6 +1006,7 @@ func main() {
 		st.Count(fmt.Sprintf("GOMAXPROCS:%02d", r.procs))
 		st.Count(fmt.Sprintf("writers:%d", r.nA+r.nB+r.nC))
 		st.Count(fmt.Sprintf("family-writers:%d", r.nC))
+		st.Count(fmt.Sprintf("truncate-writer:%d", r.nD))
 		st.Count(fmt.Sprintf("readers:%02d", r.nR))
 		st.Count(fmt.Sprintf("txn-routes:%d", r.K+3))
 		if len(st.Samples) < 5 {
